@@ -23,6 +23,12 @@ def run(tier, seed):
     tlc_must_hold(r, "UriPairs")
     c.add_tlc(r, "all pairs of accepted URIs x 11 join arguments: EqSym RelEmptyIff RelJoin ParentAsym JoinLaws EqCongr")
     cases += r.replay
+    # longer URIs over a smaller alphabet: deeper paths and trailing slashes (a/a/a/ against a/a/a needs length 6)
+    deep = [('Chars = {"a", "A", "b", "/", "."} MaxLen = 5', 'Chars = {"a", "/"} MaxLen = 8' if quick else 'Chars = {"a", "A", "/"} MaxLen = 7')]
+    r = tlc("MC_UriPairs", cfg_with(wd, "MC_UriPairs.cfg", "pairs-deep.cfg", deep), workers=workers, xmx="8g", timeout=6000)
+    tlc_must_hold(r, "UriPairs (deep)")
+    c.add_tlc(r, "all pairs of accepted URIs up to length 8 over {a,/} (thorough: 7 over {a,A,/}): the same laws on deeper paths and trailing slashes")
+    cases += r.replay
     r = tlc("MC_UriTriples", cfg_with(wd, "MC_UriTriples.cfg", "triples.cfg", [("MaxLen = 5", "MaxLen = 4" if quick else "MaxLen = 5")]),
             workers=workers, xmx="8g", timeout=6000)
     tlc_must_hold(r, "UriTriples")
